@@ -291,17 +291,18 @@ func FlatPairs(v Val) [][2]string {
 		return out
 	}
 	for _, kv := range v.M {
+		name := strings.TrimPrefix(kv.K, "!") // "!name": a parameter sent under exactly this name (no field's key is renamed to it)
 		switch kv.V.K {
 		case "m":
 			out = append(out, FlatPairs(kv.V)...)
 		case "l":
 			for _, e := range kv.V.L {
-				out = append(out, [2]string{kv.K, scalarString(e)})
+				out = append(out, [2]string{name, scalarString(e)})
 			}
 		case "", "nil":
 			// absent
 		default:
-			out = append(out, [2]string{kv.K, scalarString(kv.V)})
+			out = append(out, [2]string{name, scalarString(kv.V)})
 		}
 	}
 	return out
